@@ -3,7 +3,7 @@
    InvKV: about version records.  InvKC: about contents; [InvKC_ex m D] is InvKC
    with the versions D "in flight" (unlinked, neither re-pushed nor queued yet). *)
 From Coq Require Import List NArith Bool Lia Sorted.
-From FsDb Require Import VList VListProofs Core CoreLemmas CoreInv.
+From FsDb Require Import VList VListProofs Core Spec CoreLemmas CoreInv Refine.
 Import ListNotations.
 Open Scope N_scope.
 
@@ -275,4 +275,359 @@ Proof.
   - intros c1 c2 r1 r2 H1 H2. apply clean_job_kvf_sub in H1. apply clean_job_kvf_sub in H2.
     apply (k_seq_inj m K c1 c2 r1 r2 H1 H2).
   - apply clean_job_kvf_keys. apply (k_keys m K).
+Qed.
+
+(* membership of a content id in the queue is decidable *)
+Lemma classic_queue m c :
+  (exists j d, In j (m_q m) /\ In d j /\ v_cid d = c) \/ ~ (exists j d, In j (m_q m) /\ In d j /\ v_cid d = c).
+Proof.
+  destruct (existsb (fun j => existsb (fun d => N.eqb (v_cid d) c) j) (m_q m)) eqn:E.
+  - left. apply existsb_exists in E. destruct E as (j & Hj & E). apply existsb_exists in E.
+    destruct E as (d & Hd & E). apply N.eqb_eq in E. eauto.
+  - right. intros (j & d & Hj & Hd & Ec).
+    assert (H : existsb (fun j0 => existsb (fun d0 => N.eqb (v_cid d0) c) j0) (m_q m) = true).
+    { apply existsb_exists. exists j. split; [exact Hj|]. apply existsb_exists. exists d. split; [exact Hd|].
+      apply N.eqb_eq. exact Ec. }
+    congruence.
+Qed.
+
+(* ---------- drain ---------- *)
+Lemma fold_clean_job_kvf_sub q : forall m c r,
+  aget (m_kvf (fold_left clean_job q m)) c = Some r -> aget (m_kvf m) c = Some r.
+Proof.
+  induction q as [|j q IH]; intros m c r H; [exact H|].
+  cbn [fold_left] in H. apply IH in H. apply clean_job_kvf_sub in H. exact H.
+Qed.
+
+Lemma fold_clean_job_kvf_other q : forall m c,
+  (forall j d, In j q -> In d j -> v_cid d <> c) ->
+  aget (m_kvf (fold_left clean_job q m)) c = aget (m_kvf m) c.
+Proof.
+  induction q as [|j q IH]; intros m c H; [reflexivity|].
+  cbn [fold_left]. rewrite IH by (intros j' d Hj Hd; apply (H j' d); [right; exact Hj | exact Hd]).
+  apply clean_job_kvf_other. intros d Hd. apply (H j d); [left; reflexivity | exact Hd].
+Qed.
+
+Lemma fold_clean_job_kvf_keys q : forall m,
+  NoDup (map fst (m_kvf m)) -> NoDup (map fst (m_kvf (fold_left clean_job q m))).
+Proof.
+  induction q as [|j q IH]; intros m H; [exact H|]. cbn [fold_left]. apply IH. apply clean_job_kvf_keys. exact H.
+Qed.
+
+Lemma fold_clean_job_cont_none q : forall m c,
+  (exists j d, In j q /\ In d j /\ v_cid d = c) -> aget (m_cont (fold_left clean_job q m)) c = None.
+Proof.
+  induction q as [|j q IH]; intros m c (j0 & d & Hj & Hd & E); [destruct Hj|].
+  cbn [fold_left]. destruct Hj as [<-|Hj].
+  - (* cleaned by this job; later jobs only remove *)
+    assert (H0 : aget (m_cont (clean_job m j)) c = None).
+    { rewrite clean_job_cont.
+      assert (Ex : existsb (fun d0 => N.eqb c (v_cid d0)) j = true).
+      { apply existsb_exists. exists d. split; [exact Hd | rewrite E; apply N.eqb_refl]. }
+      rewrite Ex. reflexivity. }
+    clear -H0. revert H0. generalize (clean_job m j). induction q as [|j' q IH']; intros m0 H0; [exact H0|].
+    cbn [fold_left]. apply IH'. rewrite clean_job_cont. rewrite H0. destruct (existsb _ j'); reflexivity.
+  - apply IH. eauto.
+Qed.
+
+Lemma drain_invK m : Inv m -> InvKV m -> InvKC m -> InvKV (drain m) /\ InvKC (drain m).
+Proof.
+  intros I KV KC. unfold drain.
+  destruct (fold_clean_job_fields (m_q m) (set_q m [])) as (E1 & _ & _ & E4 & E5 & _ & E7). cbn zeta in *.
+  split.
+  - constructor; unfold stale; rewrite ?E1, ?E4, ?E7; cbn [m_seq m_all m_nextcid set_q].
+    + intros k v Hv. rewrite fold_clean_job_kvf_other; [apply (k_listed m KV k v Hv)|].
+      intros j d Hj Hd E. destruct (inv_queue m I j d Hj Hd) as [_ Hne]. apply (Hne k v Hv). symmetry. exact E.
+    + intros c r E. apply fold_clean_job_kvf_sub in E. destruct (k_record m KV c r E) as (H1 & H2 & H3 & H4 & H5).
+      repeat split; assumption.
+    + intros c1 c2 r1 r2 H1 H2. apply fold_clean_job_kvf_sub in H1. apply fold_clean_job_kvf_sub in H2.
+      apply (k_seq_inj m KV c1 c2 r1 r2 H1 H2).
+    + apply fold_clean_job_kvf_keys. apply (k_keys m KV).
+  - assert (Hc : forall c x, aget (m_cont (fold_left clean_job (m_q m) (set_q m []))) c = Some x ->
+                 aget (m_cont m) c = Some x /\ ~ (exists j d, In j (m_q m) /\ In d j /\ v_cid d = c)).
+    { intros c x Hx. split.
+      - destruct (classic_queue m c) as [Hin|Hnot].
+        + rewrite fold_clean_job_cont_none in Hx by exact Hin. discriminate.
+        + rewrite fold_clean_job_cont in Hx; [exact Hx|].
+          intros j d Hj Hd E. apply Hnot. eauto.
+      - intros Hin. rewrite fold_clean_job_cont_none in Hx by exact Hin. discriminate. }
+    constructor.
+    + intros c x Hx. destruct (Hc c x Hx) as [Hx' Hnq].
+      destruct (k_cont_rec m [] KC c x Hx') as [r Hr]. exists r.
+      rewrite fold_clean_job_kvf_other; [exact Hr|]. intros j d Hj Hd E. apply Hnq. eauto.
+    + intros c x Hx. destruct (Hc c x Hx) as [Hx' Hnq]. rewrite E4, E5. cbn [m_all m_q set_q].
+      destruct (k_cont_live m [] KC c x Hx') as [H|[H|(d & [] & _)]]; [left; exact H | contradiction].
+Qed.
+
+(* ---------- garbage collection ---------- *)
+Lemma gc_kvf_view m :
+  Inv m ->
+  exists m2, gc m = clean_job m2 (gc_deleted m) /\ m_kvf m2 = m_kvf m /\ m_cont m2 = m_cont m.
+Proof.
+  intros I. rewrite gc_unfold. cbn zeta.
+  destruct (gc_m0_fields m) as (_ & _ & Et & Ea & Ec & _ & _ & _ & Ek). cbn zeta in *.
+  eexists. split; [|split].
+  - f_equal. unfold gc_deleted, gc_deleted_of. rewrite Ea, Et. apply flat_map_ext. intros a.
+    rewrite (inv_stores m I). reflexivity.
+  - cbn [m_kvf set_all set_tx]. exact Ek.
+  - cbn [m_cont set_all set_tx]. exact Ec.
+Qed.
+
+Lemma gc_deleted_in_all m d :
+  Inv m -> In d (gc_deleted m) ->
+  In d (lget (m_all m) (v_key d)) /\ is_main d = true /\ gc_keep (lget (m_all m) (v_key d)) (gc_horizon m) d = false.
+Proof.
+  intros I Hd. apply (In_gc_deleted m d I) in Hd.
+  assert (Hm : In d (filter is_main (lget (m_all m) (v_key d)))).
+  { unfold gc_deleted_of in Hd.
+    destruct (collect_list v_seq (filter is_main (lget (m_all m) (v_key d))) (gc_horizon m)) as [dd keep] eqn:Ec.
+    apply collect_list_split in Ec. cbn in Hd. rewrite Ec. apply in_or_app. left. exact Hd. }
+  apply filter_In in Hm. destruct Hm as [H1 H2]. split; [exact H1|]. split; [exact H2|].
+  unfold gc_keep. apply negb_false_iff. apply existsb_ver_eqb_In. exact Hd.
+Qed.
+
+(* the newest committed version of a key survives the collector *)
+Lemma gc_last_main_kept m k w :
+  Inv m -> last_opt (filter is_main (lget (m_all m) k)) = Some w ->
+  In w (lget (m_all (gc m)) k).
+Proof.
+  intros I Hw. rewrite (gc_all m k I). apply filter_In.
+  assert (Hin := last_opt_In _ _ _ Hw). apply filter_In in Hin. destruct Hin as [Hin Hm].
+  split; [exact Hin|]. apply gc_keep_true; [apply (inv_sorted m I) | exact Hin |].
+  unfold vkeep. rewrite Hw, N.eqb_refl. apply orb_true_r.
+Qed.
+
+Lemma main_le_last (l : list ver) v :
+  vsorted l -> In v l -> is_main v = true ->
+  exists w, last_opt (filter is_main l) = Some w /\ v_seq v <= v_seq w.
+Proof.
+  intros Hs Hv Hm.
+  assert (Hin : In v (filter is_main l)) by (apply filter_In; auto).
+  assert (Hsm : vsorted (filter is_main l)) by (apply sorted_filter; exact Hs).
+  destruct (last_opt (filter is_main l)) as [w|] eqn:E.
+  - exists w. split; [reflexivity|]. apply last_opt_some in E. rewrite E in Hin, Hsm.
+    apply in_app_or in Hin. destruct Hin as [Hin|[<-|[]]]; [|lia].
+    apply sorted_app_inv in Hsm. destruct Hsm as (_ & _ & H). specialize (H v w Hin (or_introl eq_refl)). lia.
+  - apply last_opt_none in E. rewrite E in Hin. destruct Hin.
+Qed.
+
+Lemma gc_invK m : Inv m -> InvKV m -> InvKC m -> InvKV (gc m) /\ InvKC (gc m).
+Proof.
+  intros I KV KC.
+  destruct (gc_kvf_view m I) as (m2 & Egc & Ek2 & Ec2).
+  destruct (gc_fields m) as (Es & _ & Eq & _ & Enc & _).
+  assert (A := fun k => gc_all m k I).
+  assert (Hsub : forall k v, In v (lget (m_all (gc m)) k) -> In v (lget (m_all m) k) /\
+                                                            gc_keep (lget (m_all m) k) (gc_horizon m) v = true).
+  { intros k v Hv. rewrite A in Hv. apply filter_In in Hv. exact Hv. }
+  assert (Hkept_cid : forall k v d, In v (lget (m_all (gc m)) k) -> In d (gc_deleted m) -> v_cid d <> v_cid v).
+  { intros k v d Hv Hd E. destruct (Hsub k v Hv) as [Hv1 Hv2].
+    destruct (gc_deleted_in_all m d I Hd) as (Hd1 & _ & Hd3).
+    assert (d = v) by (eapply (inv_cid_inj m I); eassumption). subst d.
+    destruct (inv_range m I _ _ Hv1) as (_ & _ & Ekey & _). rewrite Ekey in Hd3. congruence. }
+  assert (Hsubk : forall c r, aget (m_kvf (gc m)) c = Some r -> aget (m_kvf m) c = Some r).
+  { intros c r H. rewrite Egc in H. apply clean_job_kvf_sub in H. rewrite Ek2 in H. exact H. }
+  assert (Hstale_main : forall r w, In w (lget (m_all m) (v_key r)) -> is_main w = true -> v_seq r < v_seq w ->
+            exists w', In w' (lget (m_all (gc m)) (v_key r)) /\ is_main w' = true /\ v_seq r < v_seq w').
+  { intros r w Hw Hm Hlt.
+    destruct (main_le_last _ w (inv_sorted m I (v_key r)) Hw Hm) as (w' & Hw' & Hle).
+    exists w'. split; [apply (gc_last_main_kept m _ w' I Hw')|].
+    assert (Hin := last_opt_In _ _ _ Hw'). apply filter_In in Hin. split; [tauto | lia]. }
+  split.
+  - constructor; unfold stale; rewrite ?Enc.
+    + intros k v Hv. rewrite Egc, clean_job_kvf_other.
+      * rewrite Ek2. apply (k_listed m KV k v). exact (proj1 (Hsub k v Hv)).
+      * intros d Hd. exact (Hkept_cid k v d Hv Hd).
+    + intros c r E. apply Hsubk in E. destruct (k_record m KV c r E) as (H1 & H2 & H3 & H4 & H5).
+      repeat split; try assumption; try lia.
+      destruct H5 as [H5|[H5|(w & Hw & Hm & Hlt)]].
+      * (* listed before: kept, or collected and then superseded by the kept newest *)
+        destruct (gc_keep (lget (m_all m) (v_key r)) (gc_horizon m) r) eqn:Ekeep.
+        -- left. rewrite A. apply filter_In. auto.
+        -- right. right.
+           assert (Hmain : is_main r = true).
+           { unfold gc_keep in Ekeep. apply negb_false_iff in Ekeep. apply existsb_ver_eqb_In in Ekeep.
+             unfold gc_deleted_of in Ekeep.
+             destruct (collect_list v_seq (filter is_main (lget (m_all m) (v_key r))) (gc_horizon m)) as [dd keep] eqn:Ec.
+             apply collect_list_split in Ec. cbn in Ekeep.
+             assert (Hf : In r (filter is_main (lget (m_all m) (v_key r)))) by (rewrite Ec; apply in_or_app; left; exact Ekeep).
+             apply filter_In in Hf. tauto. }
+           destruct (main_le_last _ r (inv_sorted m I (v_key r)) H5 Hmain) as (w' & Hw' & Hle).
+           exists w'. split; [apply (gc_last_main_kept m _ w' I Hw')|].
+           assert (Hin := last_opt_In _ _ _ Hw'). apply filter_In in Hin. split; [tauto|].
+           assert (Hne : r <> w').
+           { intros ->. assert (Hk := gc_last_main_kept m _ w' I Hw'). apply Hsub in Hk. destruct Hk as [_ Hk]. congruence. }
+           assert (Hnd := sorted_NoDup _ (inv_sorted m I (v_key r))).
+           destruct (N.eq_dec (v_seq r) (v_seq w')) as [Eq'|]; [|lia]. exfalso. apply Hne.
+           (* equal numbers in a strictly sorted list: same element *)
+           clear -H5 Hin Eq' I. destruct Hin as [Hin _].
+           assert (Hs := inv_sorted m I (v_key r)). revert Hs H5 Hin.
+           generalize (lget (m_all m) (v_key r)). induction l as [|y l IH]; intros Hs Hr Hw; [destruct Hr|].
+           apply sorted_cons_inv in Hs. destruct Hs as [Hs Hf]. rewrite Forall_forall in Hf.
+           destruct Hr as [->|Hr], Hw as [->|Hw]; [reflexivity | | | exact (IH Hs Hr Hw)].
+           ++ specialize (Hf w' Hw). lia.
+           ++ specialize (Hf r Hr). lia.
+      * right. left. exact H5.
+      * right. right. exact (Hstale_main r w Hw Hm Hlt).
+    + intros c1 c2 r1 r2 H1 H2. apply Hsubk in H1. apply Hsubk in H2. apply (k_seq_inj m KV c1 c2 r1 r2 H1 H2).
+    + rewrite Egc. apply clean_job_kvf_keys. rewrite Ek2. apply (k_keys m KV).
+  - constructor.
+    + intros c x Hx. rewrite (gc_cont m c I) in Hx.
+      destruct (existsb (fun d => N.eqb c (v_cid d)) (gc_deleted m)) eqn:Ex; [discriminate|].
+      destruct (k_cont_rec m [] KC c x Hx) as [r Hr]. exists r.
+      rewrite Egc, clean_job_kvf_other; [rewrite Ek2; exact Hr|].
+      intros d Hd E. assert (Ex' : existsb (fun d0 => N.eqb c (v_cid d0)) (gc_deleted m) = true).
+      { apply existsb_exists. exists d. split; [exact Hd | rewrite E; apply N.eqb_refl]. }
+      congruence.
+    + intros c x Hx. rewrite (gc_cont m c I) in Hx.
+      destruct (existsb (fun d => N.eqb c (v_cid d)) (gc_deleted m)) eqn:Ex; [discriminate|].
+      rewrite Eq.
+      destruct (k_cont_live m [] KC c x Hx) as [(k & v & Hv & E)|[H|(d & [] & _)]]; [|right; left; exact H].
+      left. exists k, v. split; [|exact E]. rewrite A. apply filter_In. split; [exact Hv|].
+      destruct (gc_keep (lget (m_all m) k) (gc_horizon m) v) eqn:Ekeep; [reflexivity|]. exfalso.
+      assert (Hd : In v (gc_deleted m)).
+      { apply (In_gc_deleted m v I). destruct (inv_range m I _ _ Hv) as (_ & _ & -> & _).
+        unfold gc_keep in Ekeep. apply negb_false_iff in Ekeep. apply existsb_ver_eqb_In in Ekeep. exact Ekeep. }
+      assert (Ex' : existsb (fun d0 => N.eqb c (v_cid d0)) (gc_deleted m) = true).
+      { apply existsb_exists. exists v. split; [exact Hd | rewrite E; apply N.eqb_refl]. }
+      congruence.
+Qed.
+
+(* ---------- second phase of commit ---------- *)
+Lemma fold_push_committed_invKV kept : forall m,
+  Inv m -> InvKV m -> NoDup (map v_cid kept) ->
+  (forall f, In f kept -> v_cid f < m_nextcid m /\ cid_free m (v_cid f)) ->
+  InvKV (fold_left push_committed kept m).
+Proof.
+  induction kept as [|f kept IH]; intros m I K Hnd Hk; [exact K|].
+  cbn [fold_left]. inversion Hnd as [|? ? Hnotin Hnd']; subst.
+  destruct (Hk f (or_introl eq_refl)) as [Hlt Hfree].
+  apply IH.
+  - unfold push_committed. apply push_version_inv; [exact I | left; reflexivity | exact Hlt | exact Hfree].
+  - unfold push_committed. apply push_version_invKV; assumption.
+  - exact Hnd'.
+  - intros g Hg. destruct (Hk g (or_intror Hg)) as [Hlt' Hfree']. split; [exact Hlt'|].
+    apply push_committed_cid_free; [exact Hfree'|].
+    intros E. apply Hnotin. rewrite E. apply in_map. exact Hg.
+Qed.
+
+Lemma fold_push_committed_invKC kept : forall m D,
+  InvKC_ex m (kept ++ D) -> InvKC_ex (fold_left push_committed kept m) D.
+Proof.
+  induction kept as [|f kept IH]; intros m D K; [exact K|].
+  cbn [fold_left]. apply IH. unfold push_committed. apply push_version_invKC.
+  intros c x Hc Hne. split; [apply (k_cont_rec m _ K c x Hc)|].
+  destruct (k_cont_live m _ K c x Hc) as [H|[H|(d & Hd & E)]]; [left; exact H | right; left; exact H|].
+  right. right. destruct Hd as [<-|Hd]; [congruence|]. exists d. auto.
+Qed.
+
+Lemma tx_versions_split m h d :
+  Inv m -> In d (tx_versions m h) -> In d (commit_older m h) \/ In d (commit_kept m h).
+Proof.
+  intros I Hd. unfold tx_versions in Hd. apply in_flat_map in Hd. destruct Hd as (k & Hk & Hd).
+  destruct (last_opt (sget (m_tx m) h k)) as [f|] eqn:E.
+  - apply last_opt_some in E. rewrite E in Hd. apply in_app_or in Hd. destruct Hd as [Hd|[<-|[]]].
+    + left. unfold commit_older. apply in_flat_map. exists k. auto.
+    + right. unfold commit_kept. apply in_flat_map. exists k. split; [exact Hk|].
+      destruct (last_opt (sget (m_tx m) h k)) as [f'|] eqn:E'.
+      * apply last_opt_some in E'. rewrite E' in E.
+        apply app_inj_tail in E. destruct E as [_ ->]. left. reflexivity.
+      * apply last_opt_none in E'. rewrite E' in E. destruct (removelast (sget (m_tx m) h k)); discriminate.
+  - apply last_opt_none in E. rewrite E in Hd. destruct Hd.
+Qed.
+
+Lemma commit_invK m x :
+  Inv m -> InvKV m -> InvKC m -> reg_find (m_reg m) (x_id x) = Some x ->
+  InvKV (fst (commit m x)) /\ InvKC (fst (commit m x)).
+Proof.
+  intros I KV KC Hfind. apply reg_find_In in Hfind. destruct Hfind as [Hx _].
+  destruct (inv_reg_range m I x Hx) as (_ & _ & Hpos & _).
+  assert (Hh : x_id x <> 0) by lia.
+  set (h := x_id x) in *.
+  assert (I2 := commit_m2_inv m h I Hh).
+  assert (KV2 : InvKV (commit_m2 m h)).
+  { unfold commit_m2. apply (unlink_invKV m); try reflexivity; try assumption. cbn [m_seq set_seq set_reg]. lia. }
+  assert (KC2 : InvKC_ex (commit_m2 m h) (tx_versions m h)).
+  { unfold commit_m2. apply (unlink_invKC m); try reflexivity; assumption. }
+  rewrite commit_unfold. cbn zeta. fold h.
+  destruct (commit_m0_kept m h) as [-> ->].
+  match goal with |- InvKV (fst (if ?c then _ else _)) /\ _ => destruct c end; cbn [fst].
+  - split; [apply enqueue_invKV; exact KV2|].
+    apply (enqueue_invKC _ _ (tx_versions m h)); [exact KC2|].
+    intros d Hd. apply in_or_app. apply (tx_versions_split m h d I Hd).
+  - assert (Hkept : forall f, In f (commit_kept m h) -> v_cid f < m_nextcid (commit_m2 m h) /\ cid_free (commit_m2 m h) (v_cid f)).
+    { intros f Hf. destruct (In_commit_kept m h f I Hf) as (H1 & H2 & _).
+      change (m_nextcid (commit_m2 m h)) with (m_nextcid m). split.
+      - destruct (inv_range m I _ _ H1) as (_ & _ & _ & H). exact H.
+      - split.
+        + intros k v Hv. exact (owned_excl_cid m h f k v I H1 H2 Hv).
+        + intros job d Hj Hd E. change (m_q (commit_m2 m h)) with (m_q m) in Hj.
+          destruct (inv_queue m I job d Hj Hd) as [_ Hne]. apply (Hne _ _ H1). symmetry. exact E. }
+    split.
+    + apply enqueue_invKV. apply fold_push_committed_invKV; try assumption. apply commit_kept_cids_NoDup. exact I.
+    + apply (enqueue_invKC _ _ (commit_older m h)); [|auto].
+      apply fold_push_committed_invKC. constructor.
+      * apply (k_cont_rec _ _ KC2).
+      * intros c y Hc. destruct (k_cont_live _ _ KC2 c y Hc) as [H|[H|(d & Hd & E)]]; [left; exact H | right; left; exact H|].
+        right. right. exists d. split; [|exact E]. apply in_or_app.
+        destruct (tx_versions_split m h d I Hd); [right | left]; assumption.
+Qed.
+
+Lemma rollback_invK m h :
+  Inv m -> InvKV m -> InvKC m -> InvKV (rollback m h) /\ InvKC (rollback m h).
+Proof.
+  intros I KV KC. unfold rollback. destruct (reg_find (m_reg m) h) as [x|] eqn:Hfind; [|split; assumption].
+  apply reg_find_In in Hfind. destruct Hfind as [Hx Ex].
+  destruct (inv_reg_range m I x Hx) as (_ & _ & Hpos & _).
+  assert (Hh : h <> 0) by lia.
+  set (m0 := set_reg m (reg_del (m_reg m) h)).
+  change (tx_versions m0 h) with (tx_versions m h). split.
+  - apply enqueue_invKV. apply (unlink_invKV m); try reflexivity; try assumption; cbn; lia.
+  - apply (enqueue_invKC _ _ (tx_versions m h)); [|auto].
+    apply (unlink_invKC m); try reflexivity; assumption.
+Qed.
+
+(* ---------- every operation except Reopen ---------- *)
+Theorem mstep_invK m o :
+  Inv m -> InvKV m -> InvKC m -> op_ok m o ->
+  InvKV (fst (mstep m o)) /\ InvKC (fst (mstep m o)).
+Proof.
+  intros I KV KC Hok. destruct o as [l|h k v|h k|h k|h|h|h| | |]; cbn [mstep].
+  - (* begin *) cbn [fst]. split.
+    + apply (InvKV_ext m); try reflexivity; [cbn; lia | exact KV].
+    + apply (InvKC_ext m); try reflexivity. exact KC.
+  - destruct (N.eqb_spec k 0) as [->|Hk]; [split; assumption|]. cbn [fst].
+    set (m2 := set_cont (set_nextcid m (N.succ (m_nextcid m))) (aset (m_cont m) (m_nextcid m) v)).
+    assert (I2 : Inv m2) by exact (Inv_set_cont_fresh m v I).
+    assert (KV2 : InvKV m2).
+    { constructor; cbn [m_all m_kvf m_seq m_nextcid m2 set_cont set_nextcid].
+      - apply (k_listed m KV).
+      - intros c r E. destruct (k_record m KV c r E) as (H1 & H2 & H3 & H4 & H5). repeat split; try assumption; lia.
+      - apply (k_seq_inj m KV).
+      - apply (k_keys m KV). }
+    destruct (fresh_cid_free m I) as [F1 F2]. split.
+    + apply push_version_invKV; [exact I2 | exact KV2 | cbn; lia | split; assumption].
+    + apply push_version_invKC. intros c x Hc Hne. cbn [m_cont m2 set_cont] in Hc.
+      rewrite aget_aset in Hc. destruct (N.eqb_spec c (m_nextcid m)); [contradiction|].
+      split; [apply (k_cont_rec m [] KC c x Hc) | apply (k_cont_live m [] KC c x Hc)].
+  - cbn [fst]. set (m1 := set_nextcid m (N.succ (m_nextcid m))).
+    assert (I1 : Inv m1) by exact (Inv_bump_cid m I).
+    assert (KV1 : InvKV m1).
+    { constructor; cbn [m_all m_kvf m_seq m_nextcid m1 set_nextcid].
+      - apply (k_listed m KV).
+      - intros c r E. destruct (k_record m KV c r E) as (H1 & H2 & H3 & H4 & H5). repeat split; try assumption; lia.
+      - apply (k_seq_inj m KV).
+      - apply (k_keys m KV). }
+    destruct (fresh_cid_free m I) as [F1 F2]. split.
+    + apply push_version_invKV; [exact I1 | exact KV1 | cbn; lia | split; assumption].
+    + apply push_version_invKC. intros c x Hc Hne.
+      split; [apply (k_cont_rec m [] KC c x Hc) | apply (k_cont_live m [] KC c x Hc)].
+  - destruct (tx_info m h); split; assumption.
+  - destruct (tx_info m h); split; assumption.
+  - destruct (reg_find (m_reg m) h) as [x|] eqn:E; [|split; assumption].
+    assert (Ex := proj2 (reg_find_In _ _ _ E)). subst h. apply commit_invK; assumption.
+  - apply rollback_invK; assumption.
+  - apply gc_invK; assumption.
+  - apply drain_invK; assumption.
+  - destruct Hok.
 Qed.
